@@ -169,6 +169,9 @@ class Frame(object):
                                               u.MHz).to(u.Hz).value
             
             self.t_start = Time(self.waterfall.header['tstart'], format='mjd').unix
+            # A Waterfall opened with a time selection holds the integrations from index 
+            # container.t_start on; the header's tstart is the time of integration 0
+            self.t_start += (getattr(self.waterfall.container, 't_start', 0) or 0) * self.dt
             self.source_name = self.waterfall.header['source_name']
 
             # When multiple Stokes parameters are supported, this will have to
